@@ -439,7 +439,7 @@ func (g *gen) enumerateArrays(full bool) {
 	if full {
 		R = 5
 	}
-	idx := optInts(-R, R)
+	idx := append(optInts(-R, R), ip(-100), ip(100)) // at, one past, several past and far past every length 0..3, both signs
 	for _, r := range smallReceivers(full) {
 		for _, s := range idx {
 			for _, e := range idx {
@@ -475,13 +475,13 @@ func (g *gen) enumerateArrays(full bool) {
 				g.indexOf(r, x, f)
 			}
 		}
-		for _, d := range optInts(-1, 4) {
+		for _, d := range append(optInts(-1, 4), ip(100), ip(-100)) {
 			g.flat(r, d)
 		}
 		g.callbacks(r)
 	}
 	for _, r := range nestedReceivers {
-		for _, d := range optInts(-1, 5) {
+		for _, d := range append(optInts(-1, 5), ip(100), ip(-100)) {
 			g.flat(r, d)
 		}
 		g.callbacks(r)
@@ -527,6 +527,9 @@ func randList(rnd *rand.Rand, maxLen int) Val {
 func randIdx(rnd *rand.Rand, n int, omit bool) *int {
 	if omit && rnd.Intn(5) == 0 {
 		return nil
+	}
+	if rnd.Intn(12) == 0 {
+		return ip([]int{-1000, -50, 50, 1000}[rnd.Intn(4)]) // far outside
 	}
 	return ip(rnd.Intn(2*n+5) - (n + 2))
 }
@@ -676,12 +679,21 @@ func (g *gen) asciiString(s string, rnd *rand.Rand) {
 		}
 		return ic(&st, n)
 	}
-	for st := -2; st <= n+2; st++ {
+	// index domain for both positions: every value from 2 below zero to 2 past the length (so
+	// 0, mid, length-1, length, one past, two past, negative and every start>end pair occur),
+	// plus values far outside on both sides
+	dom := []int{-100}
+	for v := -2; v <= n+2; v++ {
+		dom = append(dom, v)
+	}
+	dom = append(dom, n+7, 1000)
+	for _, st := range dom {
 		if pick(3) {
 			g.str(p, s, "substring", " order=none start="+sc(st)+" end=omit", []Arg{aInt(st)}, Str(StrSubstring(s, st, nil)))
 		}
-		for en := -2; en <= n+2; en++ {
-			if !pick(12) {
+		for _, en := range dom {
+			// seeded receivers sample the matrix, but always keep some start>=length pairs
+			if !pick(12) && !(rnd != nil && st >= n && en < n && rnd.Intn(3) == 0) {
 				continue
 			}
 			en := en
@@ -731,6 +743,17 @@ func (g *gen) multibyteString(s string, rnd *rand.Rand) {
 	g.law(s, "substring(0)", "", "$r->substring(0) === $r", Bool(true))
 	g.law(s, "substring(0,length)", "", "$r->substring(0, $r->length()) === $r", Bool(true))
 	g.law(s, "substring(length)", "", "$r->substring($r->length())", Str(""))
+	// arguments beyond every possible length are unit independent too (clamp, then swap)
+	g.law(s, "substring(far)", "", "$r->substring(1000)", Str(""))
+	g.law(s, "substring(0,far)", "", "$r->substring(0, 1000)", Str(s))
+	g.law(s, "substring(neg,far)", "", "$r->substring(-5, 1000)", Str(s))
+	g.law(s, "substring(far,0)", "", "$r->substring(1000, 0)", Str(s))
+	g.law(s, "substring(far,neg)", "", "$r->substring(1000, -3)", Str(s))
+	g.law(s, "substring(far,far)", "", "$r->substring(1000, 2000)", Str(""))
+	g.law(s, "substring(length,0)", "", "$r->substring($r->length(), 0)", Str(s))
+	g.law(s, "substring(length+1,0)", "", "$r->substring($r->length() + 1, 0)", Str(s))
+	g.law(s, "substring(length,neg)", "", "$r->substring($r->length(), -1)", Str(s))
+	g.law(s, "substring(0,0)", "", "$r->substring(0, 0)", Str(""))
 	for _, t := range pieces(s, 2) {
 		if !pick(2) {
 			continue
